@@ -14,6 +14,7 @@ def main():
     for k, name in enumerate(["C02", "C06", "C09", "C05", "C03"]):
         g = gen.G(seed * 1000 + k)
         cs += arith.GROUPS[name](g, n if name != "C03" else n // 4)
+    cs += arith.group_intops(gen.G(seed * 1000 + 7), n // 2)
     events, byid, dropped = arith.record(cs, runner)
     # a few elementary functions at the libmp level (documented accuracy, not bit-identical by contract: compared with tolerance)
     lm = mpmath.libmp
